@@ -31,8 +31,8 @@ var (
 type RoundupKind int
 
 const (
-	Roundup31 RoundupKind = iota // v3.1 appendix A integer definition
-	RoundupCeil                  // v3.0: smallest one-decimal number >= input
+	Roundup31   RoundupKind = iota // v3.1 appendix A integer definition
+	RoundupCeil                    // v3.0: smallest one-decimal number >= input
 )
 
 // roundupRat applies Roundup to an exact rational (score units); returns tenths.
@@ -106,11 +106,11 @@ type v3Model struct {
 	is31 bool
 	// first stage, in tenths after Roundup, for both Roundup definitions [kind]
 	// index: expl (AV + 4*AC + 8*PR + 24*UI = 48) ; scope ; impact index (C + 3*I + 9*A + 27*(CR + 4*IR + 16*AR))
-	modBase  [2][2][48][27 * 64]int16
-	modAmb   [2][48][27 * 64]bool
-	base     [2][2][48][27]int16
-	impactF  [2][27]float64 // Impact() by scope
-	explF    [2][48]float64
+	modBase         [2][2][48][27 * 64]int16
+	modAmb          [2][48][27 * 64]bool
+	base            [2][2][48][27]int16
+	impactF         [2][27]float64 // Impact() by scope
+	explF           [2][48]float64
 	roundupDisagree int // first-stage values where the two Roundup definitions differ
 }
 
